@@ -253,6 +253,42 @@ def check_word(s, positions, acc):
                     acc.violation(ID, 'shim', case, dict(kind=kind, api=name, opts=sorted(k for k, v in opts.items() if v is not None)),
                                   observed=repr(o1)[:600], expected=repr(o2)[:600])
             check_structural(s, pos, tol, acc)
+            check_token_sequence(s, pos, tol, acc)
+
+
+def check_token_sequence(s, pos, tol, acc):
+    """Several get_token() calls on ONE walker with the same options but different parsing states: each must equal
+    the token of a fresh token reader under the equivalent state."""
+    from pylatexenc.latexwalker import LatexWalker
+    from pylatexenc.latexnodes import LatexTokenReader
+    from mc.checks.c11 import canon_tok
+    lw = LatexWalker(s, tolerant_parsing=tol)
+    states = [None,
+              lw.make_parsing_state(in_math_mode=True, math_mode_delimiter='$'),
+              None,
+              lw.make_parsing_state(enable_comments=False)]
+    for opts in (dict(environments=False), dict(include_brace_chars=[('[', ']')])):
+        for si, ps in enumerate(states):
+            acc.count('evaluations')
+            o1 = outcome(lambda: canon_tok(lw.get_token(pos, parsing_state=ps, **opts)))
+
+            def fresh():
+                base = ps if ps is not None else LatexWalker(s, tolerant_parsing=tol).make_parsing_state()
+                kw = {}
+                if opts.get('include_brace_chars'):
+                    kw['latex_group_delimiters'] = list(base.latex_group_delimiters) + list(opts['include_brace_chars'])
+                if 'environments' in opts and base.enable_environments != opts['environments']:
+                    kw['enable_environments'] = opts['environments']
+                st2 = base.sub_context(**kw) if kw else base
+                tr = LatexTokenReader(s, tolerant_parsing=tol)
+                tr.move_to_pos_chars(pos)
+                return canon_tok(tr.peek_token(parsing_state=st2))
+            o2 = outcome(fresh)
+            if o1 != o2:
+                acc.violation(ID, 'tokseq', dict(s=s, pos=pos, tolerant=tol, opts=sorted(opts), call=si),
+                              dict(kind='get_token-depends-on-earlier-calls-or-differs', opts=sorted(opts)),
+                              observed=repr(o1)[:300], expected=repr(o2)[:300])
+                return
 
 
 def check_structural(s, q, tol, acc):
@@ -499,6 +535,8 @@ def replay(sub, case):
         acc.violations = [v for v in acc.violations if v['case'].get('variant') == case['variant'] and v['case'].get('tolerant') == case['tolerant']]
     elif sub == 'structural':
         check_structural(case['s'], case['pos'], False, acc)
+    elif sub == 'tokseq':
+        check_token_sequence(case['s'], case['pos'], case['tolerant'], acc)
     elif sub == 'modespellings':
         s = case['s']
         w = s.strip('$')[2:]
